@@ -19,6 +19,8 @@ let rec int_of_nat = function O -> 0 | S k -> 1 + int_of_nat k
 
 (* ---------- names and values ---------- *)
 let name_of_string (s : string) : name =
+  (* "/1/2~s": the marker after ~ says how the harness obtained the name (construction / NameFromStr / NameFromBytes) *)
+  let s = match String.index_opt s '~' with Some i -> String.sub s 0 i | None -> s in
   if s = "/" || s = "" then []
   else List.map n_of_dec (List.tl (String.split_on_char '/' s))
 let string_of_name (nm : name) : string =
